@@ -226,3 +226,34 @@ def fn_body(rel, pattern):
     m = mask(src)
     s, e = block_after(src, m, pattern)
     return src, m, s, e
+
+
+def strip_comments(src):
+    """remove // and /* */ comments, keeping string literals intact (same line structure not preserved)"""
+    out = []
+    i, n = 0, len(src)
+    while i < n:
+        if src.startswith("//", i):
+            j = src.find("\n", i)
+            i = n if j < 0 else j
+        elif src.startswith("/*", i):
+            depth, j = 1, i + 2
+            while j < n and depth:
+                if src.startswith("/*", j):
+                    depth += 1; j += 2
+                elif src.startswith("*/", j):
+                    depth -= 1; j += 2
+                else:
+                    j += 1
+            i = j
+            out.append(" ")
+        elif src[i] == '"':
+            j = i + 1
+            while j < n and src[j] != '"':
+                j += 2 if src[j] == "\\" else 1
+            out.append(src[i:j + 1])
+            i = j + 1
+        else:
+            out.append(src[i])
+            i += 1
+    return "".join(out)
